@@ -98,6 +98,65 @@ fn cli_termination_case(cfg: &Config, tmp: &Path, idx: u64, r: &mut Rng, st: &mu
     let _ = std::fs::remove_dir_all(&d);
 }
 
+/// the same input twice in ONE process: translations and the problems of a task are built twice
+/// from the same parsed input and must be identical (names and texts); state that survives a call
+/// (a process-wide counter, a cache) shows here and not in fresh processes
+fn in_process_case(_cfg: &Config, idx: u64, r: &mut Rng, st: &mut Stats) {
+    use anthem::translating::formula_representation::{mu::Mu, natural::Natural, tau_star::TauStar};
+    let flags = Flags::random(r);
+    let same = |a: &Built, b: &Built| -> Option<bool> {
+        match (a, b) {
+            (Built::Ok { problems: x, .. }, Built::Ok { problems: y, .. }) => Some(x.len() == y.len() && x.iter().zip(y.iter()).all(|(p, q)| p.name == q.name && p.text == q.text)),
+            (Built::Refused(x), Built::Refused(y)) => Some(x == y),
+            _ => None,
+        }
+    };
+    if idx % 2 == 0 {
+        let eo = ExtOpts { hostile_identifiers: r.chance(1, 3), max_outputs: 3, ..Default::default() };
+        let (mut t, _) = gen_external(r, &eo);
+        if r.chance(1, 2) {
+            // unnamed and named outline entries
+            t.po = ["lemma: forall X (X = X).", "lemma[l]: forall X (X = X).\nlemma: 1 = 1.", "definition: forall X (dd(X) <-> X = 1).\nlemma: forall X (dd(X) -> X = 1)."][r.upto(3)].to_string();
+        }
+        let Ok(parsed) = parse_ext(&t) else { return };
+        let a = build_external(&parsed, true, flags);
+        let b = build_external(&parsed, true, flags);
+        st.inc("in_process_repetitions_external");
+        match same(&a, &b) {
+            Some(true) => st.eval(Some(&format!("ext|{}|{}", t.right, flags.tag()))),
+            Some(false) => {
+                st.eval(None);
+                st.violation("in-process-nondeterminism:verify-external", "building the problems of one external task twice in one process gives different names or texts", crate::monitors::c09::origin_ext(&t, flags));
+            }
+            None => st.inc("in_process_repetitions_undecided"),
+        }
+    } else {
+        let so = StrongOpts { hostile_names: r.chance(1, 3), hostile_symbols: r.chance(1, 3), ..Default::default() };
+        let (l, rt) = gen_strong_with(r, so);
+        let (Ok(lp), Ok(rp)) = (parse_program(&l), parse_program(&rt)) else { return };
+        let mu = r.chance(1, 2);
+        let a = build_strong(&lp, &rp, mu, flags);
+        let b = build_strong(&lp, &rp, mu, flags);
+        st.inc("in_process_repetitions_strong");
+        match same(&a, &b) {
+            Some(true) => st.eval(Some(&format!("strong|{l}|{rt}|{}", flags.tag()))),
+            Some(false) => {
+                st.eval(None);
+                st.violation("in-process-nondeterminism:verify-strong", "building the problems of one strong task twice in one process gives different names or texts", J::obj().set("left", J::s(&l)).set("right", J::s(&rt)).set("flags", J::s(flags.tag())));
+            }
+            None => st.inc("in_process_repetitions_undecided"),
+        }
+        // translations
+        let t1 = (crate::run::guarded(|| lp.clone().tau_star().to_string()), crate::run::guarded(|| lp.clone().mu().to_string()), crate::run::guarded(|| lp.clone().natural().map(|t| t.to_string())));
+        let t2 = (crate::run::guarded(|| lp.clone().tau_star().to_string()), crate::run::guarded(|| lp.clone().mu().to_string()), crate::run::guarded(|| lp.clone().natural().map(|t| t.to_string())));
+        st.inc("in_process_repetitions_translate");
+        if t1 != t2 {
+            st.eval(None);
+            st.violation("in-process-nondeterminism:translate", "translating one program twice in one process gives different text", J::obj().set("program", J::s(&l)));
+        }
+    }
+}
+
 fn hash_dir(d: &Path) -> Vec<(String, u64)> {
     let mut v = Vec::new();
     if let Ok(rd) = std::fs::read_dir(d) {
@@ -290,6 +349,8 @@ pub fn run(cfg: &Config) -> i32 {
     stats.merge(s0);
     let s2 = parallel(cfg, "determinism", cfg.scaled(cfg.pick(1200, 300_000)), budget, |idx, r, st| determinism_case(cfg, &tmp, idx, r, st));
     stats.merge(s2);
+    let s3 = parallel(cfg, "in-process", cfg.scaled(cfg.pick(3000, 500_000)), budget / 3, |idx, r, st| in_process_case(cfg, idx, r, st));
+    stats.merge(s3);
     let _ = std::fs::remove_dir_all(&tmp);
     finish(
         cfg,
